@@ -1,5 +1,6 @@
 """C10 — conditions decide what their names say; And/Or/Not evaluate every operand once."""
 import itertools
+import math
 
 from core import expr_str, strip, subexprs, AnchorMissing
 from kinds import origin
@@ -56,7 +57,8 @@ def r1_less_than_n(ctx):
     PROG = "mahf::state::common::Progress<"
     bad = []
     cnt = 0
-    for n, v in [(4.0, 3.0), (4.0, 4.0), (4.0, 5.0), (1.0, 0.0)]:
+    # bounds of either sign and both zeros (float / signed lens targets): the answer is `value < n`, whatever value / n is
+    for n, v in [(4.0, 3.0), (4.0, 4.0), (4.0, 5.0), (1.0, 0.0), (-2.0, -3.0), (-2.0, -2.0), (-1.0, 4.0), (-0.0, -1.0), (0.0, 0.0), (-0.0, 1.0)]:
         for present in (True, False):
             me = Sym("self", {ni: n, li: Sym("lens")})
             store = statemodel.Store(F, levels=1)
@@ -81,8 +83,13 @@ def r1_less_than_n(ctx):
             held = [ty for ty in tys if store.holders(p, ty)]
             if present:
                 got = [initspec.leaves(p.mstate, store.value(p, ty, 0)) for ty in held]
-                if got != [[v / n]]:
-                    bad.append((v, n, "%s leaves the progress %s instead of value/n = %s" % (where, got, v / n)))
+                try:
+                    want_p = v / n
+                except ZeroDivisionError:
+                    want_p = (float("nan") if v == 0 else math.copysign(float("inf"), v) * math.copysign(1.0, n))
+                same = len(got) == 1 and len(got[0]) == 1 and isinstance(got[0][0], float) and (got[0][0] == want_p or (got[0][0] != got[0][0] and want_p != want_p))
+                if not same:
+                    bad.append((v, n, "%s leaves the progress %s instead of value/n = %s" % (where, got, want_p)))
             elif held:
                 bad.append((v, n, "%s inserts one" % where))
     ctx.count("less_than_n_scenarios", cnt)
